@@ -179,4 +179,11 @@ for spec in job['trees']:
         out['trees'].append({'to_string': 'ok'})
     except Exception as ex:
         out['trees'].append({'to_string': type(ex).__name__})
+    # the optional intelligent_choice flag re-arranges children of CHECKED elements; it does not decide whether checks run at all
+    try:
+        with contextlib.redirect_stdout(io.StringIO()):
+            build(spec).to_string(intelligent_choice=True)
+        out['trees'][-1]['to_string_ic'] = 'ok'
+    except Exception as ex:
+        out['trees'][-1]['to_string_ic'] = type(ex).__name__
 json.dump(out, sys.stdout)
